@@ -454,7 +454,7 @@ pub fn run(prop: &dyn Property, opt: &RunOptions) -> i32 {
                         rng_algorithm: RngAlgorithm::ChaCha,
                         rng_seed: RngSeed::Fixed(seed),
                         max_shrink_iters: 60_000,
-                        max_shrink_time: 0,
+                        max_shrink_time: cfg.shrink_ms,
                         max_global_rejects: 1,
                         ..Config::default()
                     };
